@@ -622,3 +622,19 @@ package boltz
 //@   props C13
 //@   pure
 //@   ensures[selected-iff-a-key] result == has(m, name)
+
+// the get-and-set variants write under the same rules as the plain setters: only what the setter guard lets through
+// (field checker, no pending error), and a list is emptied before the new members go in
+//@ func (*TypedBucket).GetAndSetString
+//@   props C13
+//@   nosafety
+//@   modifies *
+//@   callpre[writes-only-what-the-setter-guard-lets-through] setTyped@1: ret(ProceedWithSet, 1) && arg0 == TypeString && arg1 == name && str(arg2) == value
+//@   lensures[the-setter-guard-is-always-asked] called(ProceedWithSet, 1)
+//@ func (*TypedBucket).GetAndSetStringList
+//@   props C13
+//@   nosafety
+//@   modifies *
+//@   callpre[the-old-members-are-dropped-before-the-new-ones-go-in] EmptyBucket@1: recv == bucket && arg0 == name && ret(ProceedWithSet, 1)
+//@   lensures[the-setter-guard-is-always-asked] called(ProceedWithSet, 1)
+//@   invariant 1: true
